@@ -65,6 +65,7 @@ def step (s : Option St) (line : String) : Option St × String :=
       if st.broken then (s, "broken incomplete") else
       match op with
       | "setup" => (s, "err already")
+      | "rename" => (s, s!"ok {showState st}")   -- RenameAccount rewrites the account row; next indices unchanged
       | "markused" =>
         if st.mem.ext == 0 then (s, "none")
         else (some { st with used := (st.mem.ext - 1) :: st.used }, s!"ok idx={st.mem.ext - 1}")
